@@ -136,10 +136,46 @@ func (x *Exec) freshResult(st *State, t types.Type, hint string) Val {
 	}
 	v := x.freshVar(hint, x.TI.SortOf(t))
 	st.assume(x.wf(st, v, t))
+	x.assumeDeepWf(st, v, t, 0)
 	return Val{T: v}
 }
 
+// assumeDeepWf: what a returned reference points to is well-formed with respect to the allocation counter at return
+// (everything reachable from a result exists when the callee returns).
+func (x *Exec) assumeDeepWf(st *State, v *Term, t types.Type, depth int) {
+	if depth > 2 {
+		return
+	}
+	switch u := types.Unalias(t).Underlying().(type) {
+	case *types.Pointer:
+		s := x.TI.SortOf(u.Elem())
+		pointee := Select(x.heapGet(st, hpComp(s), hpSort(s)), v)
+		w := x.wf(st, pointee, u.Elem())
+		if !w.IsTrue() {
+			st.assume(Implies(Not(Eq(v, IntLit(0))), w))
+		}
+		x.assumeDeepWf(st, pointee, u.Elem(), depth+1)
+	case *types.Slice:
+		es := x.TI.SortOf(u.Elem())
+		i := Var("wi", SInt)
+		e := Select(Select(x.heapGet(st, hsComp(es), hsSort(es)), SlArr(v)), i)
+		w := x.wf(st, e, u.Elem())
+		if !w.IsTrue() {
+			st.assume(Forall([]*Term{i}, w, []*Term{e}))
+		}
+	case *types.Struct:
+		s := x.TI.SortOf(t)
+		for i := 0; i < u.NumFields(); i++ {
+			x.assumeDeepWf(st, x.TI.FieldSel(s, i, v), u.Field(i).Type(), depth+1)
+		}
+	}
+}
+
 func (x *Exec) doReturn(st *State, fr *Frame, rs []Val, ins *ssa.Return) ([]*State, bool) {
+	if x.pure != nil && len(st.frames) == x.pure.depth {
+		x.pure.results = append(x.pure.results, pureResult{pc: append([]*Term{}, st.pc[x.pure.basePC:]...), rets: rs})
+		return nil, false
+	}
 	if len(st.frames) == 1 {
 		x.topReturn(st, fr, rs, ins)
 		return nil, false
@@ -601,14 +637,12 @@ func (x *Exec) stepAppend(st *State, fr *Frame, call *ssa.Call) ([]*State, bool)
 		// n == 0: nothing is written
 		h := x.heapGet(s1, comp, cs)
 		if nl, ok := litInt(n); ok && nl.Int64() == 1 {
-			x.frameCheck(s1, SlArr(s), "append")
 			row := Select(h, SlArr(s))
 			s1.heap[comp] = Store(h, SlArr(s), Store(row, Sidx(SlOff(s), SlLen(s)), Select(Select(h, SlArr(t)), Sidx(SlOff(t), IntLit(0)))))
 		} else if nl, ok := litInt(n); ok && nl.Int64() == 0 {
 			// nothing
 		} else {
 			// general: fresh component with quantified description
-			x.frameCheckCond(s1, Cmp(">", n, IntLit(0)), SlArr(s), "append")
 			nh := x.freshVar(comp+"_ap", cs)
 			a, k := Var("fa", SInt), Var("fk", SInt)
 			s1.assume(Forall([]*Term{a}, Implies(Not(Eq(a, SlArr(s))), Eq(Select(nh, a), Select(h, a))), []*Term{Select(nh, a)}))
@@ -689,4 +723,67 @@ func (x *Exec) stepCopy(st *State, fr *Frame, call *ssa.Call) ([]*State, bool) {
 	fr.vals[call] = Val{T: n}
 	fr.idx++
 	return nil, true
+}
+
+// ---------------------------------------------------------------------------
+// summaries of small pure functions (comparators): all paths of a loop-free function as (condition, result) pairs
+
+type pureResult struct {
+	pc   []*Term
+	rets []Val
+}
+
+type pureCtx struct {
+	depth   int
+	basePC  int
+	results []pureResult
+}
+
+// summarize runs fn on args in (a clone of) st and returns one (path condition, results) pair per returning path.
+// Panicking paths are dropped (their conditions are simply absent).  The function must not write old memory.
+func (x *Exec) summarize(st *State, fn *ssa.Function, bindings []Val, args []Val) []pureResult {
+	if fn.Blocks == nil || x.info(fn).hasLoops {
+		fail("cannot summarise %s (no body or loops)", fn.Name())
+	}
+	s2 := st.clone()
+	nf := &Frame{id: x.nextFrameID(), fn: fn, vals: map[ssa.Value]Val{}, open: map[*Loop]bool{}, depth: len(s2.frames)}
+	for i, p := range fn.Params {
+		nf.vals[p] = args[i]
+	}
+	for i, p := range fn.FreeVars {
+		if i < len(bindings) {
+			nf.vals[p] = bindings[i]
+		}
+	}
+	nf.block = fn.Blocks[0]
+	s2.frames = append(s2.frames, nf)
+	savedPure, savedObls, savedFrame, savedPaths, savedTrack := x.pure, len(x.vc.obls), x.vc.checkFrame, x.vc.paths, x.vc.trackPanics
+	x.pure = &pureCtx{depth: len(s2.frames), basePC: len(s2.pc)}
+	x.vc.checkFrame = false
+	x.vc.trackPanics = false
+	work := []*State{s2}
+	for len(work) > 0 {
+		w := work[len(work)-1]
+		work = work[:len(work)-1]
+		work = append(work, x.runPath(w)...)
+	}
+	res := x.pure.results
+	x.pure = savedPure
+	x.vc.obls = x.vc.obls[:savedObls]
+	x.vc.checkFrame = savedFrame
+	x.vc.paths = savedPaths
+	x.vc.trackPanics = savedTrack
+	return res
+}
+
+// boolSummary: the function's boolean result as one term.
+func (x *Exec) boolSummary(st *State, fn *ssa.Function, bindings []Val, args []Val) *Term {
+	var alts []*Term
+	for _, r := range x.summarize(st, fn, bindings, args) {
+		if len(r.rets) != 1 || r.rets[0].T == nil || r.rets[0].T.Sort != SBool {
+			fail("comparator %s does not return a single bool", fn.Name())
+		}
+		alts = append(alts, And(append(append([]*Term{}, r.pc...), r.rets[0].T)...))
+	}
+	return Or(alts...)
 }
